@@ -86,6 +86,13 @@ def main():
         if ok:
             sd = "/verif/seeded/%s-%s" % (prop, name)
             os.makedirs(sd, exist_ok=True)
+            same = os.path.realpath(sd) == os.path.realpath(mdir)
+            if same:
+                json.dump(res, open(os.path.join(sd, "meta.json"), "w"), indent=1)
+                print("RESULT %s-%s confirmed=%s detected=%s exit=%s" % (prop, name, res["confirmed"], res["detected"], p.returncode))
+                for l in res["check_output"]:
+                    print("   ", l[:300])
+                return 0
             shutil.copy(os.path.join(mdir, "patch.diff"), sd)
             if is_dir:
                 shutil.copytree(demo_src, os.path.join(sd, os.path.basename(demo_src.rstrip("/"))), dirs_exist_ok=True)
